@@ -25,6 +25,11 @@ NEUTRAL = ["remove_types", "remove_compound_assignment", "remove_continue", "rem
 OPEN_FINDING_RULES = ["remove_nil_declaration", "remove_unused_variable", "remove_unused_if_branch", "convert_local_function_to_assign", "remove_empty_do"]
 
 
+# rules that delete whole statements (Block::remove_statement hands the comments of the deleted statement to the next one)
+BLOCK_RULES = {"remove_unused_variable", "remove_empty_do", "remove_unused_while", "remove_unused_if_branch", "remove_types",
+               "filter_after_early_return", "remove_nil_declaration", "remove_function_call_parens", "remove_assertions", "remove_debug_profiling"}
+
+
 def rules_text(names):
     return "[" + ", ".join(n if n.startswith("{") else "'%s'" % n for n in names) + "]"
 
@@ -107,6 +112,9 @@ def run(tier):
         # file (no blank line absorbs it), so the periodic layouts go to the pipelines WITHOUT a rule that has an open finding
         if not any(("'%s'" % r) in rules_text(rules) for r in OPEN_FINDING_RULES):
             ls = ls + (dense if tier == "thorough" else rng.sample(dense, 24 if label.startswith(("single", "neutral1")) else 10))
+        # comment blocks above statements (gap kinds 9..): to every pipeline that deletes whole statements -- routing only
+        if label.startswith(("single", "neutral1")) and any(r in BLOCK_RULES for r in rules):
+            ls = ls + [l for l in layouts if l["k1"] >= 9 and l["g2"] == 0 and l not in ls]
         for li, l in enumerate(ls):
             cases.append({"id": "k%d_%d" % (ci, li), "src": l["src"], "kind": "markers", "rules": rules_text(rules), "shift": 0,
                           "names": 0 if "rename_variables" in rules else 1,
